@@ -11,10 +11,9 @@ import (
 // The generator runs the history while it builds it (it needs the live views), then the finished case is
 // executed again from its JSON by runCase: records always come from the replay path.
 //
-// Unless a case is "wild", the generator stays out of the input regions of the OPEN findings of C17
-// (known/C17.json: fill coercion order C17-N8, non-index numeric key type check C17-N9): those are exercised by
-// the corpus cases and by the few wild cases of every run; every classification of a mismatch costs a coqc run.
-// The regions of the findings repaired in /repo (F11, F10, C17-N1..N7) are generated freely.
+// C17 has no open finding: nothing is avoided (the regions of F11, F10, C17-N1..N9, all repaired in /repo, are
+// generated freely).  The only exclusion is a NaN moved between the two float kinds by set(typedArray): the
+// payload of the stored NaN is implementation-defined.
 
 var bufSizes = []int{0, 1, 2, 3, 4, 7, 8, 9, 12, 15, 16, 17, 24, 31, 32, 33, 40, 48, 63, 64}
 
@@ -190,17 +189,17 @@ func (g *gen) liveLen(b int) int {
 func (g *gen) op() *Op {
 	r, e := g.r, g.e
 	nv, nd, nb := len(e.views), len(e.dvs), len(e.bufs)
-	w := []int{14, 5, 10, 14, 7, 8, 8, 7, 4, 5, 3, 8, 9, 3, 4, 2, 2, 3}
+	w := []int{14, 5, 10, 14, 7, 8, 8, 7, 4, 5, 3, 8, 9, 3, 4, 2, 2, 3, 9, 3}
 	if nv == 0 {
-		w = []int{30, 8, 0, 0, 0, 0, 0, 0, 0, 0, 0, 0, 0, 2, 2, 1, 0, 0}
+		w = []int{30, 8, 0, 0, 0, 0, 0, 0, 0, 0, 0, 0, 0, 2, 2, 1, 0, 0, 0, 0}
 	} else if nv > 12 {
-		w[0], w[8], w[9] = 1, 1, 1
+		w[0], w[8], w[9], w[19] = 1, 1, 1, 0
 	}
 	if nd == 0 {
 		w[11], w[12] = 0, 0
 	}
 	if nb > 8 {
-		w[8], w[13] = 0, 0
+		w[8], w[13], w[19] = 0, 0, 0
 	}
 	which := r.Pick(w...)
 	detP := 4
@@ -272,10 +271,9 @@ func (g *gen) op() *Op {
 		case 3:
 			s := []string{"2147483648", "4294967296", "9007199254740992", "9223372036854775808", "1000000000000000000000", "-9007199254740992", "4294967295"}[r.Intn(7)]
 			o.Key = &s
-			mismatchOK = g.wild // beyond 2^53 goja treats the key like a non-index numeric key (see below)
+			// (beyond 2^53 goja treats the key like a non-index numeric key)
 		case 4:
 			o.Ks = []string{"-0", "1.5", "NaN", "Infinity", "-Infinity", "1e-7", "0.5", "-1.5", "1e+21x"}[r.Intn(8)]
-			mismatchOK = g.wild // open finding C17-N9: a non-index numeric key with a value of the wrong type does not throw
 		}
 		if which == 3 {
 			o.O = "set"
@@ -321,24 +319,8 @@ func (g *gen) op() *Op {
 		} else {
 			o.A1 = g.idx(dm.length, detP, dm.buf)
 		}
-		if dm.kind != sm.kind && sm.kind >= 7 && dm.kind >= 7 && dm.kind < 9 {
-			// a NaN moved between the two float kinds: the stored payload is implementation-defined
-			for i := 0; i < sm.length; i++ {
-				m := e.bufs[sm.buf].mem[sm.off+i*esize[sm.kind]:]
-				var f float64
-				if sm.kind == 7 {
-					f = float64(math.Float32frombits(uint32(m[0]) | uint32(m[1])<<8 | uint32(m[2])<<16 | uint32(m[3])<<24))
-				} else {
-					var u uint64
-					for j := 7; j >= 0; j-- {
-						u = u<<8 | uint64(m[j])
-					}
-					f = math.Float64frombits(u)
-				}
-				if math.IsNaN(f) {
-					return nil
-				}
-			}
+		if g.nanBetweenFloatKinds(sm, dm.kind) {
+			return nil
 		}
 		return o
 	case 6: // copywithin
@@ -351,14 +333,6 @@ func (g *gen) op() *Op {
 		vm := e.views[v]
 		val := g.val(vm.kind, detP, vm.buf, true)
 		o := &Op{O: "fill", V: v, K: vm.kind, Val: &val, A1: g.optIdx(vm.length, detP, vm.buf, 30), A2: g.optIdx(vm.length, detP, vm.buf, 40)}
-		if val.Big != isBig(vm.kind) && !g.wild { // open finding C17-N8 (coercion order): wrong type + effects in start/end
-			if o.A1 != nil {
-				o.A1.D = 0
-			}
-			if o.A2 != nil {
-				o.A2.D = 0
-			}
-		}
 		return o
 	case 8:
 		v := r.Intn(nv)
@@ -407,6 +381,35 @@ func (g *gen) op() *Op {
 		return &Op{O: "lens", V: r.Intn(nv)}
 	case 17:
 		return &Op{O: "sort", V: r.Intn(nv)}
+	case 19: // new T(typedArray)
+		sv := r.Intn(nv)
+		k := r.Intn(11)
+		if r.Chance(25) {
+			k = e.views[sv].kind
+		}
+		if g.nanBetweenFloatKinds(e.views[sv], k) {
+			return nil
+		}
+		return &Op{O: "ctorfrom", K: k, S: sv}
+	case 18: // includes / indexOf / lastIndexOf
+		v := r.Intn(nv)
+		vm := e.views[v]
+		o := &Op{O: []string{"includes", "indexof", "lastindexof"}[r.Intn(3)], V: v, K: vm.kind}
+		var x VArg
+		switch {
+		case r.Chance(55) && vm.length > 0 && !e.bufs[vm.buf].ab.Detached(): // an element that is there
+			x = g.elementAt(vm, r.Intn(vm.length))
+		case r.Chance(12):
+			x = VArg{U: true}
+		case r.Chance(30):
+			x = g.srcBoundary(vm.kind, vm.kind)
+		default:
+			x = g.val(vm.kind, 0, -1, true)
+		}
+		x.D = 0
+		o.Val = &x
+		o.A1 = g.optIdx(vm.length, detP, vm.buf, 45)
+		return o
 	}
 	return nil
 }
@@ -480,6 +483,9 @@ func (g *gen) pairScenario(pair int) []Op {
 		fill.Src = append(fill.Src, g.srcBoundary(sk, dk))
 	}
 	ops = append(ops, fill, Op{O: "settyped", V: 1, S: 0, A1: plain(r.Intn(dlen - n + 1))})
+	if r.Chance(60) {
+		ops = append(ops, Op{O: "ctorfrom", K: dk, S: 0})
+	}
 	return ops
 }
 
@@ -522,3 +528,56 @@ func genCase(r *vh.Rng, wild bool, pair int) Case {
 	return c
 }
 
+
+// elementAt decodes element i of the view from the buffer memory, as a search value equal to it
+func (g *gen) elementAt(vm viewMeta, i int) VArg {
+	m := g.e.bufs[vm.buf].mem[vm.off+i*esize[vm.kind]:]
+	var u uint64
+	for j := esize[vm.kind] - 1; j >= 0; j-- {
+		u = u<<8 | uint64(m[j])
+	}
+	var f float64
+	switch vm.kind {
+	case 0:
+		f = float64(int8(u))
+	case 1, 2:
+		f = float64(uint8(u))
+	case 3:
+		f = float64(int16(u))
+	case 4:
+		f = float64(uint16(u))
+	case 5:
+		f = float64(int32(u))
+	case 6:
+		f = float64(uint32(u))
+	case 7:
+		f = float64(math.Float32frombits(uint32(u)))
+	case 8:
+		f = math.Float64frombits(u)
+	case 9:
+		return VArg{Big: true, Z: fmt.Sprint(int64(u))}
+	case 10:
+		return VArg{Big: true, Z: fmt.Sprint(u)}
+	}
+	if math.IsNaN(f) {
+		f = math.Float64frombits(0x7ff8000000000000)
+	}
+	return VArg{Z: bitsOf(f)}
+}
+
+// nanBetweenFloatKinds: the source (a float array) holds a NaN that would be converted to the other float kind;
+// the payload of the stored NaN is implementation-defined, so such cases are not generated
+func (g *gen) nanBetweenFloatKinds(sm viewMeta, dk int) bool {
+	if sm.kind == dk || sm.kind < 7 || sm.kind > 8 || dk < 7 || dk > 8 {
+		return false
+	}
+	if g.e.bufs[sm.buf].ab.Detached() {
+		return false
+	}
+	for i := 0; i < sm.length; i++ {
+		if x := g.elementAt(sm, i); !x.Big && math.IsNaN(f64FromBits(x.Z)) {
+			return true
+		}
+	}
+	return false
+}
